@@ -13,6 +13,7 @@ CONTRACTS = {
     'C05': 'contracts.c05',
     'C06': 'contracts.c06',
     'C07': 'contracts.c07',
+    'C08': 'contracts.c08',
     'C11': 'contracts.c11',
     'C13': 'contracts.c13',
     'C14': 'contracts.c14',
